@@ -49,6 +49,7 @@ StrFmtOk(f, s) == CASE f = "f1" -> Len(s) >= 1 /\ SubSeq(s, 1, 1) = "a"
                     [] OTHER -> FALSE
 NumFmtOk(f, n) == CASE f = "n1" -> n \in NumGE0
                     [] f = "n2" -> n \in NumInt
+                    [] f = "f1" -> n \in NumGE1            \* a number format that shares its name with a string format
                     [] OTHER -> FALSE
 
 PrimM3(v, p) ==
